@@ -24,6 +24,9 @@ def draw_hier(draw, max_ids=5, max_parts=4, max_dim=3, p_red=0.2, p_cov=0.3, kin
     zero = False
     if pop['kind'] != 'red':
         theta, zero = popgen.zero_scale(draw, pop, n_ids, theta, p=0.3)
+    nested_red = None
+    if pop['kind'] == 'comp':
+        pop, theta, nested_red = popgen.nest_reduced(draw, pop, n_ids, theta, p=0.12)
     base = llbuild.draw_ll_for_dim(draw, n_dim)
     lls = [base] + [llbuild.draw_ll_like(draw, base) for _ in range(n_ids - 1)]
     ids = None
@@ -48,7 +51,7 @@ def draw_hier(draw, max_ids=5, max_parts=4, max_dim=3, p_red=0.2, p_cov=0.3, kin
         # likelihood is then responsible for setting the number of individuals
         late = gen.chance(draw, 0.6)
     prior = llbuild.draw_prior(draw, ref.pop_n_par(pop, n_ids), list(theta)) if with_prior else None
-    return dict(pop=pop, n_ids=n_ids, lls=lls, ids=ids, cov=cov, vec=vec, prior=prior, late=late, zero_scale=zero)
+    return dict(pop=pop, n_ids=n_ids, lls=lls, ids=ids, cov=cov, vec=vec, prior=prior, late=late, zero_scale=zero, nested_red=nested_red)
 
 
 def _cov_hetero(pop):
@@ -165,6 +168,10 @@ def classify(spec):
             labs.append('late_n_ids:reduced')
     if spec.get('zero_scale'):
         labs.append('noncentered_zero_scale')
+    if spec.get('nested_red'):
+        labs.append('reduced_part')
+        if spec['nested_red'] == 'all':
+            labs.append('reduced_part:all_fixed')
     if popgen.has(pop, 'trunc') and 'vec' in spec:
         from vf.props.c06 import leaf_table
         nb = ref.hier_layout(pop, spec['n_ids'])[0]
